@@ -512,6 +512,14 @@ class RunMonitor(H.NullMonitor):
             rt = us(tm) if tm is not None else us(task.release_time)
             sh.release_t = rt
             sh.released = True
+            # C02: the release time a task was *declared* with (sources of every graph
+            # instance: the instant its release policy -- or the completion of the
+            # previous closed-loop instance, plus 1us -- fixed) is a lower bound for the
+            # release the simulator performs, hence for its start
+            ir = getattr(task, "intended_release_time", None)
+            if ir is not None and not ir.is_invalid() and rt < us(ir):
+                self.viol("C02", "release.before_declared_release_time",
+                          f"{sh.key} released at {rt}, declared release time {us(ir)}")
             if pre == V:
                 sh.state = R
                 sh.fallback = R
@@ -592,6 +600,12 @@ class RunMonitor(H.NullMonitor):
         if sh.key[1] in self.dead_set(sh.key[0]):
             self.viol("C07", "untaken.started",
                       f"{sh.key} started although it can no longer receive its inputs")
+        # C07: "the join and everything after it run once the taken branch completes"
+        if sh.node is not None and getattr(sh.node, "terminal", False) and \
+                sh.node.parents and not anyfin:
+            self.viol("C07", "join.before_taken_branch",
+                      f"join {sh.key} started at {s} although none of its predecessors "
+                      f"{list(sh.node.parents)} has completed")
         # C03: not earlier than decided, on the decided pool, with the decided strategy
         if sh.decided_t is not None and s < sh.decided_t:
             self.viol("C03", "start.before_decided",
